@@ -2,7 +2,7 @@
    (bool, option, unit, list, prod, sumbool, sumor); N, Z, positive, nat stay inductive. *)
 From Coq Require Import Extraction ExtrOcamlBasic.
 From FV Require Import Model.Base Model.Sink Model.Crc Model.Codes Model.Rice Model.Predict
-  Model.Component Model.Encoder Model.Flac Model.FailSink Model.Source Model.Config Model.Parser Model.Par Proofs.OpsLen.
+  Model.Component Model.Encoder Model.Flac Model.FailSink Model.Source Model.Config Model.Parser Model.Par Model.Api Proofs.OpsLen.
 Extraction Language OCaml.
 Set Extraction KeepSingleton.
 Separate Extraction
@@ -16,6 +16,7 @@ Separate Extraction
   Source.deinterleave Source.le_bytes_to_i32s Source.i32s_to_le_bytes Source.le_bytes_of Source.fb_new Source.ctx_new
   Source.fill_le_bytes Source.fill_interleaved Source.ctx_fill_le_bytes Source.ctx_fill_interleaved Source.observable
   Config.verify Config.to_doc Config.from_doc Config.default_config Generated.c_FEATURE_EXPERIMENTAL
+  Api.streaminfo_new Api.framebuf_with_size Api.api_fill_interleaved Api.api_fill_le_bytes Api.api_frame Api.api_stream
   Parser.parse_stream Par.init Par.step Par.final Par.result_of Par.seq_result Par.read_fails Par.enabled Par.nbuf
   FailSink.expand FailSink.write_failing Component.stream_ops
   Component.stream_bytes Component.frame_bytes Component.stream_count_bits Component.frame_count_bits
